@@ -663,7 +663,7 @@ def run(ctx):
         cs.append(("%s|cold|exempt-caller-vs-top-level-call" % be, be, "cold", [[("ex", 1)], [("solo_a", 2)]]))
         cs.append(("%s|cold|hidden-call-vs-nested" % be, be, "cold", [[("hid_a", 2)], [("top1", 1)]]))
     c09.concurrent_part(ctx, cs, False, "a thread inside an explicitly versioned (exempt) function or inside a nested call tree while another "
-                        "thread makes a hidden call (must be refused) or an ordinary top-level call (must not be)", bound=2 if thorough else 1)
+                        "thread makes a hidden call (must be refused) or an ordinary top-level call (must not be)", bound=1, deep=(2, "runner", "calls") if thorough else None)
     ctx.rule += " Plus: a name re-pointed between two memento functions in the running process (4 kind pairs), closure and run-time check before / after / back."
     ctx.extra["graphs"] = len(tasks)
     t = tasks[len(tasks) // 2]
